@@ -270,6 +270,8 @@ class Registry:
 
     def uf(self, name, argtypes, rettype):
         """uninterpreted (ghost) spec function; its defining axioms are given per contract (`axioms=`)"""
+        if name in self.spec_funcs or name in self.ufs or name in self.ghostfuns:
+            raise ValueError("spec name %r is declared twice across contract files (names are global)" % name)
         self.ufs[name] = ([self.types.parse(a) for a in argtypes], self.types.parse(rettype))
 
     def opaque(self, key, specname, argtypes=None, rettype=None):
